@@ -299,6 +299,11 @@ creationDateLoop:
 		if base == nil || accent == nil {
 			continue
 		}
+		// a composite of composites doubles in size at every step
+		ctx.numOps += len(base.Cmds) + len(accent.Cmds)
+		if ctx.numOps > maxCharStringOps {
+			return nil, invalidSince("too many charstring operators")
+		}
 		g := glyphs[seac.name] // TODO(voss): do we need to make a copy here?
 		g.WidthX = base.WidthX
 		g.WidthY = base.WidthY
